@@ -2,6 +2,7 @@ package props
 
 import (
 	"fmt"
+	"os"
 	"regexp"
 	"sort"
 	"strconv"
@@ -33,9 +34,13 @@ func (c20) NumCases(tier string) int {
 	return c20ShortHistories() + 12000
 }
 
-var c20Ordinary = []string{"x", "X", "_y1", "IFS", "HOME", "x0", "v10"}
+var c20Ordinary = []string{"x", "X", "_y1", "IFS", "HOME", "x0", "v10", "é", "Ł", "A", "I"}
 var c20Special = []string{"@", "*", "#", "?", "-", "!", "0"}
-var c20Positional = []string{"1", "2", "9", "10", "11", "00", "01", "000", "9223372036854775808", "99999999999999999999"}
+var c20Positional = []string{"1", "2", "9", "10", "11", "00", "01", "000", "9223372036854775808", "99999999999999999999", "010", "08", "09", "007", "012"}
+
+// c20Environ: entries of the PROCESS environment present when the ExecEnv is created (names that are
+// not shell variable names: whatever the store does with them, $1 / $# / $0 reflect Args).
+var c20Environ = [][2]string{{"1", "envone"}, {"12", "env12"}, {"2", ""}, {"#", "envhash"}, {"0", "envzero"}, {"08", "env08"}}
 var c20Values = []string{"", "0", "1", "7", "42", "-3", "abc", "a b", "08", " ", "é"}
 var c20Words = []string{"w", "", "a b", "5", "$X", "'q'", "a$N"}
 
@@ -95,6 +100,12 @@ func (c20) build(src *gen.Source) *Case {
 	if src.Chance(1, 6) {
 		for len(c.Args) < 12 {
 			c.Args = append(c.Args, fmt.Sprintf("a%d", len(c.Args)))
+		}
+	}
+	if src.Chance(1, 10) {
+		k := 1 + src.Intn(3)
+		for i := 0; i < k; i++ {
+			c.Vars = append(c.Vars, c20Environ[src.Intn(len(c20Environ))])
 		}
 	}
 	n := 1 + src.Intn(12)
@@ -436,7 +447,27 @@ func (p c20) Run(t *testing.T, c *Case, s Sched, keepLog bool) *Obs {
 	body := func() {
 		cc := *c
 		cc.Vars = nil
-		env := newEnv(&cc)
+		var env *interp.ExecEnv
+		if len(c.Vars) == 0 {
+			env = newEnv(&cc)
+		} else {
+			// the process environment holds entries named like positional/special parameters while the
+			// ExecEnv is created; those entries are left alone, everything else is cleared as usual
+			for _, kv := range c.Vars {
+				os.Setenv(kv[0], kv[1])
+			}
+			env = interp.NewExecEnv(c.Args[0], c.Args[1:]...)
+			for _, kv := range c.Vars {
+				os.Unsetenv(kv[0])
+			}
+			var names []string
+			env.Walk(func(v interp.Var) { names = append(names, v.Name) })
+			for _, n := range names {
+				if !isSpecial(n) && !isPositional(n) {
+					env.Unset(n)
+				}
+			}
+		}
 		aliases := map[string]string{"ll": "ls -l"}
 		env.Aliases = map[string]string{"ll": "ls -l"}
 		m := &c20Model{vars: map[string]string{}, args: append([]string{}, env.Args...)}
@@ -489,6 +520,9 @@ func (p c20) Run(t *testing.T, c *Case, s Sched, keepLog bool) *Obs {
 						env.Set(op.Value, "wm")
 						return
 					}
+					if len(c.Vars) != 0 && (isSpecial(v.Name) || isPositional(v.Name)) {
+						return // imported from the process environment: not pinned
+					}
 					if cur, set := env.Get(v.Name); !set || cur.Value != v.Value {
 						add("walk-reports-dead-entry", fmt.Sprintf("%s: Walk reported %s=%q, but at that moment Get says (%q, %v)", desc, v.Name, v.Value, cur.Value, set))
 					}
@@ -511,7 +545,7 @@ func (p c20) Run(t *testing.T, c *Case, s Sched, keepLog bool) *Obs {
 				env.Opts = interp.Option(op.Opts)
 				m.opts = op.Opts
 			case "eval":
-				if mm := regexp.MustCompile(`^(\w+) = \((\w+) = 5\) \+ \((\w+) = 7\)$`).FindStringSubmatch(op.Value); mm != nil && mm[2] == mm[3] {
+				if mm := regexp.MustCompile(`^([^ ()=+]+) = \(([^ ()=+]+) = 5\) \+ \(([^ ()=+]+) = 7\)$`).FindStringSubmatch(op.Value); mm != nil && mm[2] == mm[3] {
 					// two assignments to one variable inside one expression: the last value set stays, the sum is 12
 					sim.Yield(gosim.PCallerMark)
 					n, err := env.Eval(op.Value)
@@ -754,7 +788,12 @@ func (p c20) Run(t *testing.T, c *Case, s Sched, keepLog bool) *Obs {
 			}
 			if observe == 2 {
 				var walked []string
-				env.Walk(func(v interp.Var) { walked = append(walked, v.Name+"="+v.Value) })
+				env.Walk(func(v interp.Var) {
+					if len(c.Vars) != 0 && (isSpecial(v.Name) || isPositional(v.Name)) {
+						return // imported from the process environment: what Walk makes of such names is not pinned
+					}
+					walked = append(walked, v.Name+"="+v.Value)
+				})
 				sort.Strings(walked)
 				var want []string
 				for k, v := range m.vars {
